@@ -10,13 +10,24 @@ pub const FORMAT_NAMES: &[&str] = &[
 ];
 
 const GOOD_PARAMS: &[(&str, &[&str])] = &[
-    ("annotated", &["base:2", "base:8", "base:16", "base:32", "group:1", "group:3", "group:8"]),
+    ("annotated", &["base:2", "base:4", "base:8", "base:16", "base:32", "base:64", "base:128", "group:1", "group:2", "group:3", "group:4", "group:8", "group:16"]),
     ("tcgame", &["base:2", "base:16", "group:1", "group:4"]),
     ("intelhex", &["addr_unit:8", "addr_unit:16", "addr_unit:32"]),
 ];
 
 const BAD_PARAMS: &[&str] = &["foo:1", "bar:2", "baz", "qux:x", "zed:0", "base:3", "group:0", "base:8:16", "addr_unit:7", "base:", ":", ""];
 const UNKNOWN_PARAMS: &[&str] = &["foo:1", "bar:2", "baz:3", "qux", "zed:0", "alpha:9", "omega:7"];
+
+/// A format that takes parameters, with one or two valid ones.
+pub fn draw_good_format(rng: &mut Rng) -> String {
+    let (name, ps) = *rng.pick(GOOD_PARAMS);
+    let mut s = name.to_string();
+    for _ in 0..rng.range(1, 2) {
+        s.push(',');
+        s.push_str(*rng.pick(ps));
+    }
+    s
+}
 
 pub fn draw_format(rng: &mut Rng) -> String {
     let k = rng.below(100);
